@@ -34,26 +34,21 @@ class EidField(CborField):
         if x is None or x == 'dtn:none':
             return [EidField.TypeCode.dtn, EidField.WellKnownSsp.none]
 
-        parts = urllib.parse.urlsplit(x)
+        (scheme, _sep, ssp) = x.partition(':')
         try:
-            scheme_type = EidField.TypeCode[parts[0]]
+            scheme_type = EidField.TypeCode[scheme.lower()]
         except KeyError:
-            raise ValueError('No type code for scheme "{}"'.format(parts[0]))
+            raise ValueError('No type code for scheme "{}"'.format(scheme))
 
         if scheme_type == EidField.TypeCode.dtn:
-            authority = parts[1]
-            path = parts[2]
-            ssp = ''
-            if authority:
-                ssp += '//' + authority
-                if not path.startswith('/'):
-                    path = '/' + path
-            ssp += path
-
+            # the demux part is any visible characters,
+            # also '?' and '#' and what follows them
+            if ssp.startswith('//') and '/' not in ssp[2:]:
+                ssp += '/'
             return [scheme_type, ssp]
 
         elif scheme_type == EidField.TypeCode.ipn:
-            segs = list(map(int, parts.path.split('.')))
+            segs = list(map(int, ssp.split('.')))
             return [scheme_type, segs]
 
         else:
